@@ -142,6 +142,9 @@ func NewBroker(o BrokerOpts) (*Broker, error) {
 	if len(auths) == 0 {
 		auths = []*progAuth{{}}
 	}
+	// the auth package's provider registry is a plain map: serialise the harness's own access to it
+	authRegMu.Lock()
+	defer authRegMu.Unlock()
 	for _, a := range auths {
 		name := fmt.Sprintf("verif-auth-%d", atomic.AddUint64(&authSeq, 1))
 		if err = auth.Register(name, a); err != nil {
